@@ -236,7 +236,9 @@ func runC02(cw *caseWriter, tier string, seed uint64) {
 		runScenarios(cw, 1, seed*100000, 100, 12)
 		runScenarios(cw, 7, seed*100000, 40, 12)
 		runScenarios(cw, 9, seed*100000, 2, 2)
+		runScenarios(cw, 13, seed*100000, 40, 12)
 	} else {
+		runScenarios(cw, 13, seed*100000, 800, 12)
 		runScenarios(cw, 9, seed*100000, 4, 2)
 		runScenarios(cw, 1, seed*100000, 2000, 12)
 		runScenarios(cw, 7, seed*100000, 600, 12)
